@@ -3,21 +3,25 @@ Import ListNotations.
 
 Section Paging.
 Variable entry : Type.
-Variable cost : entry -> N.           (* reply bytes charged for an entry *)
+(* The size accounting of one call is abstract: a budget state, what an entry charges, and when the reply is full.
+   READDIR (dir.ApplyEnts) and READDIRPLUS (dir.Apply) are the two instances below the section. *)
+Variable budget : Type.
+Variable charge : budget -> entry -> budget.
+Variable full : budget -> bool.
 Definition slot := option entry.
 Definition dir := list slot.
 
 (* scan = body of ApplyEnts with the corrected cookie (cookie = index of the next slot) *)
-Fixpoint scan (l:dir) (base:nat) (n count:N) : list (nat*entry) * bool * nat :=
+Fixpoint scan (l:dir) (base:nat) (b:budget) : list (nat*entry) * bool * nat :=
   match l with
   | [] => ([], true, base)
-  | None :: r => scan r (S base) n count
+  | None :: r => scan r (S base) b
   | Some e :: r =>
-      let n' := (n + cost e)%N in
-      if (count <=? n')%N then ([(base,e)], false, S base)
-      else let '(es, eof, nx) := scan r (S base) n' count in ((base,e)::es, eof, nx)
+      let b' := charge b e in
+      if full b' then ([(base,e)], false, S base)
+      else let '(es, eof, nx) := scan r (S base) b' in ((base,e)::es, eof, nx)
   end.
-Definition page (d:dir) (cookie:nat) (count:N) := scan (skipn cookie d) cookie 64%N count.
+Definition page (d:dir) (cookie:nat) (b0:budget) := scan (skipn cookie d) cookie b0.
 
 (* occupied slots of l, indexed from base *)
 Fixpoint occ (l:dir) (base:nat) : list (nat*entry) :=
@@ -31,34 +35,34 @@ Proof.
   - rewrite IH. f_equal. f_equal. lia.
 Qed.
 
-Lemma scan_spec l : forall base n count es eof nx,
-  scan l base n count = (es, eof, nx) ->
+Lemma scan_spec l : forall base b es eof nx,
+  scan l base b = (es, eof, nx) ->
   base <= nx <= base + length l /\
   es = occ (firstn (nx - base) l) base /\
   (eof = true -> nx = base + length l) /\
   (eof = false -> base < nx /\ es <> []).
 Proof.
-  induction l as [|[e|] l IH]; intros base n count es eof nx H; simpl in H.
+  induction l as [|[e|] l IH]; intros base b es eof nx H; simpl in H.
   - injection H as <- <- <-. rewrite Nat.sub_diag. simpl.
     split; [lia|]. split; [reflexivity|]. split; [lia|discriminate].
-  - destruct (count <=? n + cost e)%N.
+  - destruct (full (charge b e)).
     + injection H as <- <- <-. replace (S base - base) with 1 by lia. simpl.
       split; [lia|]. split; [reflexivity|]. split; [discriminate|]. intros _. split; [lia|discriminate].
-    + destruct (scan l (S base) (n + cost e) count) as [[es' eof'] nx'] eqn:E. injection H as <- <- <-.
-      destruct (IH _ _ _ _ _ _ E) as (A & B & C & D).
+    + destruct (scan l (S base) (charge b e)) as [[es' eof'] nx'] eqn:E. injection H as <- <- <-.
+      destruct (IH _ _ _ _ _ E) as (A & B & C & D).
       replace (nx' - base) with (S (nx' - S base)) by lia. simpl. rewrite <- B.
       split; [lia|]. split; [reflexivity|]. split.
       * intros He. specialize (C He). lia.
       * intros _. split; [lia|discriminate].
-  - destruct (IH _ _ _ _ _ _ H) as (A & B & C & D).
+  - destruct (IH _ _ _ _ _ H) as (A & B & C & D).
     replace (nx - base) with (S (nx - S base)) by lia. simpl.
     split; [lia|]. split; [exact B|]. split.
     + intros He. specialize (C He). lia.
     + intros He. destruct (D He). split; [lia|assumption].
 Qed.
 
-Lemma page_spec d c count es eof nx : c <= length d ->
-  page d c count = (es, eof, nx) ->
+Lemma page_spec d c b0 es eof nx : c <= length d ->
+  page d c b0 = (es, eof, nx) ->
   c <= nx <= length d /\
   es = occ (firstn (nx - c) (skipn c d)) c /\
   (eof = true -> nx = length d) /\ (eof = false -> c < nx /\ es <> []).
@@ -94,8 +98,8 @@ Lemma nth_error_skipn' {A} c : forall (l:list A) k, nth_error (skipn c l) k = nt
 Proof. induction c as [|c IH]; intros l k; [reflexivity|]. destruct l; [now destruct k|]. simpl. apply IH. Qed.
 
 (* what one page returns, in terms of the directory it was read from *)
-Lemma page_in d c count es eof nx i e : c <= length d ->
-  page d c count = (es, eof, nx) ->
+Lemma page_in d c b0 es eof nx i e : c <= length d ->
+  page d c b0 = (es, eof, nx) ->
   (In (i,e) es <-> c <= i < nx /\ nth_error d i = Some (Some e)).
 Proof.
   intros Hc H. destruct (page_spec _ _ _ _ _ _ Hc H) as (A & -> & _ & _).
@@ -112,7 +116,7 @@ Qed.
 (* ---- the client loop over a changing directory ---- *)
 (* ds k = directory contents when the k-th call is served; counts k = its size limit *)
 Variable ds : nat -> dir.
-Variable counts : nat -> N.
+Variable counts : nat -> budget.        (* the limits of the k-th call, as its initial budget *)
 Hypothesis grow : forall k, length (ds k) <= length (ds (S k)).   (* directories never shrink *)
 
 (* run at most `fuel` calls from call number k and cookie c; returns the pages and whether eof was seen *)
@@ -216,3 +220,56 @@ Proof.
 Qed.
 End Paging.
 Print Assumptions enum_exactly_once.
+
+(* ---- the two instances the server has ---- *)
+(* READDIR, dir.ApplyEnts: one counter starting at 64, an entry charges cost e, full when count <= n. *)
+Definition rd_budget : Type := (N * N)%type.                     (* (n, count) *)
+Definition rd_charge {entry} (cost : entry -> N) (b : rd_budget) (e : entry) : rd_budget := (fst b + cost e, snd b)%N.
+Definition rd_full (b : rd_budget) : bool := (snd b <=? fst b)%N.
+Definition page_readdir {entry} (cost : entry -> N) (d : dir entry) (cookie : nat) (count : N) :=
+  page entry rd_budget (rd_charge cost) rd_full d cookie (64, count)%N.
+
+(* READDIRPLUS, dir.Apply: two counters (dirbytes from 0 charged dcost e, n from 64 charged pcost e);
+   full when dirbytes >= dircount or n >= maxcount. *)
+Definition rdp_budget : Type := ((N * N) * (N * N))%type.        (* ((dirbytes, n), (dircount, maxcount)) *)
+Definition rdp_charge {entry} (dcost pcost : entry -> N) (b : rdp_budget) (e : entry) : rdp_budget :=
+  ((fst (fst b) + dcost e, snd (fst b) + pcost e), snd b)%N.
+Definition rdp_full (b : rdp_budget) : bool := ((fst (snd b) <=? fst (fst b)) || (snd (snd b) <=? snd (fst b)))%N.
+Definition page_readdirplus {entry} (dcost pcost : entry -> N) (d : dir entry) (cookie : nat) (dircount maxcount : N) :=
+  page entry rdp_budget (rdp_charge dcost pcost) rdp_full d cookie ((0, 64), (dircount, maxcount))%N.
+
+(* ---- one enumeration may mix the two procedures: the limits of a call say which loop serves it ---- *)
+Section Server.
+Variable entry : Type.
+Variable cost dcost pcost : entry -> N.
+Inductive limits := Readdir (count : N) | Readdirplus (dircount maxcount : N).
+Definition sv_budget : Type := (rd_budget + rdp_budget)%type.
+Definition sv_charge (b : sv_budget) (e : entry) : sv_budget :=
+  match b with inl x => inl (rd_charge cost x e) | inr y => inr (rdp_charge dcost pcost y e) end.
+Definition sv_full (b : sv_budget) : bool := match b with inl x => rd_full x | inr y => rdp_full y end.
+Definition sv_init (l : limits) : sv_budget :=
+  match l with Readdir c => inl (64, c)%N | Readdirplus d m => inr ((0, 64), (d, m))%N end.
+Definition sv_page (d : dir entry) (cookie : nat) (l : limits) := page entry sv_budget sv_charge sv_full d cookie (sv_init l).
+
+Lemma sv_scan_readdir l : forall base x,
+  scan entry sv_budget sv_charge sv_full l base (inl x) = scan entry rd_budget (rd_charge cost) rd_full l base x.
+Proof.
+  induction l as [|[e|] l IH]; intros base x; simpl; [reflexivity| |apply IH].
+  destruct (rd_full (rd_charge cost x e)); [reflexivity|]. now rewrite IH.
+Qed.
+Lemma sv_scan_readdirplus l : forall base y,
+  scan entry sv_budget sv_charge sv_full l base (inr y) = scan entry rdp_budget (rdp_charge dcost pcost) rdp_full l base y.
+Proof.
+  induction l as [|[e|] l IH]; intros base y; simpl; [reflexivity| |apply IH].
+  destruct (rdp_full (rdp_charge dcost pcost y e)); [reflexivity|]. now rewrite IH.
+Qed.
+(* the page the mixed enumeration serves is the page of the procedure called *)
+Lemma sv_page_readdir d c count : sv_page d c (Readdir count) = page_readdir cost d c count.
+Proof. apply sv_scan_readdir. Qed.
+Lemma sv_page_readdirplus d c dc mc : sv_page d c (Readdirplus dc mc) = page_readdirplus dcost pcost d c dc mc.
+Proof. apply sv_scan_readdirplus. Qed.
+
+(* the client loop with per-call procedure and limits *)
+Definition sv_enum (ds : nat -> dir entry) (lims : nat -> limits) :=
+  enum entry sv_budget sv_charge sv_full ds (fun k => sv_init (lims k)).
+End Server.
